@@ -113,13 +113,15 @@ impl Mon<T, T> {
         let st1 = self.state();
         if let Some(o) = &st1.old {
             if o.cursor_remaining != o.table.len {
-                viol!("C07", "cached iterator believes {} elements remain, old table holds {} {ctx}", o.cursor_remaining, o.table.len);
+                // (also C05's clause: the cached position agrees with the old table however
+                // elements left it)
+                return Err(Viol { extra: Vec::new(), prop: "C07", more: &["C05"], msg: format!("cached iterator believes {} elements remain, old table holds {} {ctx}", o.cursor_remaining, o.table.len) });
             }
             if let Some((mut c, mut f)) = self.map.verif_cursor() {
                 c.sort_unstable();
                 f.sort_unstable();
                 if c != f {
-                    viol!("C07", "cached iterator would visit {:?}, old table holds {:?} {ctx}", c, f);
+                    return Err(Viol { extra: Vec::new(), prop: "C07", more: &["C05"], msg: format!("cached iterator would visit {:?}, old table holds {:?} {ctx}", c, f) });
                 }
             }
         }
